@@ -43,6 +43,7 @@ def main():
     parser.add_argument('--only')
     parser.add_argument('--tier', default='quick')
     parser.add_argument('--jobs', type=int, default=4)
+    parser.add_argument('--markdown', action='store_true', help='record results in docs/selftest_results.json + docs/mutants.md')
     args = parser.parse_args()
     pids = [p.upper() for p in args.pids] or sorted(f[:-5] for f in os.listdir(os.path.join(HERE, 'mutants')) if f.endswith('.json'))
     jobs = []
@@ -52,10 +53,30 @@ def main():
                 continue
             jobs.append((pid, mutant))
     missed = 0
+    results_path = os.path.join(HERE, 'docs', 'selftest_results.json')
+    results = json.load(open(results_path, encoding='utf-8')) if os.path.exists(results_path) else {}
     with concurrent.futures.ThreadPoolExecutor(max_workers=args.jobs) as pool:
         for (pid, mutant), (mid, status, detail) in zip(jobs, pool.map(lambda j: run_mutant(j[0], j[1], args.tier), jobs)):
-            print(f'{pid} {mid:40s} {status:12s} {detail}')
+            print(f'{pid} {mid:40s} {status:12s} {detail}', flush=True)
             missed += status != 'CAUGHT'
+            import re
+
+            files = sorted({e['file'] for e in mutant.get('edits', [mutant])})
+            results.setdefault(pid, {})[mid] = {'status': status, 'tier': args.tier, 'files': files,
+                                                'mechanisms': sorted(set(re.findall(r'mechanism=([\w:+.-]+)', detail)))[:4]}
+    if args.markdown:
+        os.makedirs(os.path.join(HERE, 'docs'), exist_ok=True)
+        with open(results_path, 'w', encoding='utf-8') as fd:
+            json.dump(results, fd, indent=1, sort_keys=True)
+        lines = ['# Deliberate breaks (mutants/CNN.json) against the quick tier', '',
+                 'Regenerate with `python tools/selftest.py --markdown [PID ...]`. Each mutant is applied alone to a scratch copy of the',
+                 'tree; CAUGHT = the check exits 1 with a VIOLATION line.', '',
+                 '| property | mutant | file | result | mechanism keys reported |', '|---|---|---|---|---|']
+        for pid in sorted(results):
+            for mid, r in sorted(results[pid].items()):
+                lines.append(f"| {pid} | {mid} | {', '.join(r['files'])} | {r['status']} | {', '.join(r['mechanisms'])} |")
+        with open(os.path.join(HERE, 'docs', 'mutants.md'), 'w', encoding='utf-8') as fd:
+            fd.write('\n'.join(lines) + '\n')
     return 1 if missed else 0
 
 
